@@ -736,7 +736,7 @@ def accessor_siblings(rep, u):
             fn = u.fn("dns_hdr_%s_%s" % (fld, op))
             if fn is None:
                 raise driver.AnalysisBroken("anchor dns_hdr_%s_%s vanished" % (fld, op))
-            body = [key(e).replace("->.", "->").replace("%s_count" % fld, "XX_count") for b in fn.rpo() for e in fn.blocks[b].elems]
+            body = core.alpha_keys(fn, lambda k_, fld=fld: k_.replace("->.", "->").replace("%s_count" % fld, "XX_count"))
             n += 1
             rep.functions.add(fn.name)
             desc = "dns_hdr_%s_%s is dns_hdr_qd_%s with the counter field replaced" % (fld, op, op)
